@@ -719,6 +719,8 @@ func init() {
 	registerStreams()
 	registerTLS()
 	registerWS()
+	registerStrings2()
+	registerStd2()
 	for _, f := range intrinsicsLate {
 		f()
 	}
